@@ -191,6 +191,33 @@ def run(ck, w):
         ck.ok(o, str(fates), instances=3)
     else:
         ck.fail(o, rb.name, "per-entry failure not reported", "fates: %s" % fates)
+    o = ck.ob("C10.3j", "restore(): nothing inside the per-entry loop ends the whole restore with an error, except the caller's own change callback: "
+                        "damage that affects one entry is reported for that entry and the loop goes on")
+    heads_ = events_of(lib, rb, "index::stitch::Stitch::next")
+    some_ts = set()
+    for e in heads_:
+        for (sb_, tested, arms_, other_) in flow.discriminant_switches(rb, flow.result_carriers(rb, e.dest["l"])):
+            if rb.locals[tested].startswith("std::option::Option") and 1 in arms_:
+                some_ts.add(arms_[1])
+    if not heads_ or not some_ts:
+        ck.fail(o, rb.name, "anchor-missing", "no Stitch::next loop found in restore()")
+    else:
+        region = set()
+        for t_ in some_ts:
+            region |= rb.reachable(t_, removed_nodes={e.bb for e in heads_})
+        aborts = []
+        for e in rb.events:
+            if e.bb in region and e.bb in rb.live and (e.callee or "").endswith("FromResidual::from_residual") and e.dest and e.dest["l"] == 0:
+                src = flow.origins_x(lib, rb, e.args[0], through_calls=[r"Try>?::branch$"])
+                calls_ = flow.origin_calls(src)
+                if any(re.search(r"Fn(Mut|Once)?(<.*>)?>?::call(_mut|_once)?$", c) for c in calls_):
+                    continue
+                aborts.append((e, sorted(c.split("::")[-1] for c in calls_)))
+        if aborts:
+            ck.fail(o, rb.name, "a per-entry failure aborts the restore", "inside the entry loop an error from %s is returned with `?`: every entry after it is "
+                    "silently not restored" % aborts[0][1], aborts[0][0].site())
+        else:
+            ck.ok(o, "region of %d block(s)" % len(region), instances=len(region))
     sn = w.body("index::stitch::Stitch::next")
     o = ck.ob("C10.3d", "Stitch::next: a band that cannot be opened is reported and skipped")
     evs = events_of(lib, sn, "band::Band::open")
